@@ -150,6 +150,49 @@ impl FrequencyCounter {
     }
 }
 
+#[cfg(feature = "verif_hooks")]
+impl FrequencyCounter {
+    pub(crate) fn verif_clone(&self) -> FrequencyCounter {
+        FrequencyCounter {
+            matrix: std::array::from_fn(|index| Row(self.matrix[index].0.clone())),
+            seeds: self.seeds,
+            total_counters: self.total_counters,
+        }
+    }
+}
+
+/// Thin public wrappers for the verification harness (feature `verif_hooks` only).
+#[cfg(feature = "verif_hooks")]
+pub mod verif_api {
+    use super::{FrequencyCounter, Row, ROWS};
+    use crate::cache::types::{FrequencyEstimate, KeyHash, TotalCounters};
+
+    pub struct VerifRow(Row);
+
+    impl VerifRow {
+        pub fn new(bytes: Vec<u8>) -> Self { VerifRow(Row(bytes)) }
+        pub fn increment_at(&mut self, position: u64) { self.0.increment_at(position); }
+        pub fn get_at(&self, position: u64) -> FrequencyEstimate { self.0.get_at(position) }
+        pub fn half_counters(&mut self) { self.0.half_counters(); }
+        pub fn clear(&mut self) { self.0.clear(); }
+        pub fn bytes(&self) -> Vec<u8> { self.0.0.clone() }
+    }
+
+    pub struct VerifFrequencyCounter(pub(crate) FrequencyCounter);
+
+    impl VerifFrequencyCounter {
+        pub fn new(counters: TotalCounters) -> Self { VerifFrequencyCounter(FrequencyCounter::new(counters)) }
+        pub fn set_seeds(&mut self, seeds: [u64; ROWS]) { self.0.seeds = seeds; }
+        pub fn seeds(&self) -> [u64; ROWS] { self.0.seeds }
+        pub fn total_counters(&self) -> u64 { self.0.total_counters }
+        pub fn rows(&self) -> Vec<Vec<u8>> { self.0.matrix.iter().map(|row| row.0.clone()).collect() }
+        pub fn increment(&mut self, key_hash: KeyHash) { self.0.increment(key_hash); }
+        pub fn estimate(&self, key_hash: KeyHash) -> FrequencyEstimate { self.0.estimate(key_hash) }
+        pub fn reset(&mut self) { self.0.reset(); }
+        pub fn clear(&mut self) { self.0.clear(); }
+    }
+}
+
 #[cfg(test)]
 mod tests {
     use crate::cache::lfu::frequency_counter::{FrequencyCounter, MAX_VALUE_LOWER_FOUR_BITS, Row};
